@@ -16,6 +16,7 @@ import (
 	"strconv"
 	"strings"
 	"testing/synctest"
+	"time"
 
 	"verif.local/mc/mc"
 )
@@ -59,6 +60,7 @@ type Check struct {
 	Assumptions     []string
 	Extra           map[string]any
 	Workers         int
+	watchdog        bool
 	AtExit          func()
 
 	start     float64
@@ -144,6 +146,21 @@ func (k *Check) Budget(quick, thorough float64) {
 		b = v
 	}
 	k.deadline = k.start + b
+	// last resort: a part that never returns (a body blocked for good outside the scheduler, a
+	// coordinator waiting for a worker that will not answer) must not keep the check running for
+	// ever. Long after every internal deadline has passed the run is ended with what it has, as a
+	// capped run (exhaustive:false) - never on a run that behaves, which ends well within the budget.
+	if k.worker == "" && k.replay == nil && k.only == "" && !k.watchdog {
+		k.watchdog = true
+		limit := time.Duration((2*b + 300) * float64(time.Second))
+		go func() {
+			time.Sleep(limit)
+			fmt.Fprintf(os.Stderr, "INTERNAL: check %s has not finished %v after its start (budget %.0fs): a part is stuck; ending the run as not exhaustive\n", k.ID, limit, b)
+			k.parts = append(k.parts, &mc.Result{Name: "stuck-part", Notes: map[string]int64{"a_part_did_not_terminate": 1}, Exhaustive: false})
+			k.Finish()
+			os.Exit(0)
+		}()
+	}
 }
 
 // Parts announces how many parts the check is going to run: every part started without a
